@@ -146,4 +146,46 @@ inductive DerivesAll (env : Env) : G → List CST → Prop where
   | cons (g c cs) : Derives env g c → DerivesAll env g cs → DerivesAll env g (c :: cs)
 end
 
+/-! ### generic tree access -/
+mutual
+/-- outermost labelled nodes, left to right, not descending into them -/
+def CST.kidsL : CST → List (Nat × CST)
+  | .leaf _ => []
+  | .node n c => [(n, c)]
+  | .seq ks => kidsLL ks
+  | .many ks => kidsLL ks
+def kidsLL : List CST → List (Nat × CST)
+  | [] => []
+  | c :: cs => c.kidsL ++ kidsLL cs
+end
+
+inductive Tok where
+  | leaf (s : Str)
+  | node (n : Nat) (c : CST)
+
+mutual
+/-- leaves and outermost labelled nodes in order (empty leaves dropped) -/
+def CST.toks : CST → List Tok
+  | .leaf s => if s.isEmpty then [] else [.leaf s]
+  | .node n c => [.node n c]
+  | .seq ks => toksL ks
+  | .many ks => toksL ks
+def toksL : List CST → List Tok
+  | [] => []
+  | c :: cs => c.toks ++ toksL cs
+end
+
+
+mutual
+def CST.size : CST → Nat
+  | .leaf _ => 1
+  | .node _ c => c.size + 1
+  | .seq ks => sizeL ks + 1
+  | .many ks => sizeL ks + 1
+def sizeL : List CST → Nat
+  | [] => 0
+  | c :: cs => c.size + sizeL cs
+end
+
+
 end XmlRs
